@@ -301,6 +301,45 @@ async fn directory_level<TC: ModelCfg>(rep: &Report, quick: bool) {
     }
 }
 
+/// get_node_labels runs its VRF evaluations as separate tasks when akd is built with `parallel_vrf`; on a
+/// current-thread runtime they always complete in spawn order, so this part runs the real function on a
+/// multi-thread runtime (a free-running, i.e. SAMPLED, set of completion orders — not exhaustive): whatever the
+/// completion order, every returned node label must be the one derived for the input it is paired with
+fn batched_on_multithread<TC: ModelCfg>(rep: &Report, quick: bool) {
+    let rt = tokio::runtime::Builder::new_multi_thread().worker_threads(8).enable_time().build().unwrap();
+    let reps = if quick { 20 } else { 200 };
+    let mut batch = vec![];
+    for i in 0..16 {
+        for (f, v) in [(true, 1u64), (false, 1), (true, 2 + i as u64)] {
+            batch.push((AkdLabel(format!("mt{i}").into_bytes()), fr(f), v, AkdValue(format!("value-{i}-{v}").into_bytes())));
+        }
+    }
+    let vrf = GateVrf::new();
+    let mut orders = std::collections::BTreeSet::new();
+    for _ in 0..reps {
+        let got = rt.block_on(vrf.get_node_labels::<TC>(&batch)).expect("get_node_labels");
+        rep.eval(1);
+        if got.len() != batch.len() {
+            rep.violation(format!("{}/multithread/get_node_labels_wrong_count", TC::NAME), json!({"asked": batch.len(), "got": got.len()}));
+            continue;
+        }
+        let order: Vec<usize> = got.iter().map(|((l, f, v, _), _)| batch.iter().position(|(bl, bf, bv, _)| bl == l && bf == f && bv == v).unwrap_or(usize::MAX)).collect();
+        orders.insert(order);
+        for ((l, f, v, val), nl) in got.iter() {
+            let want = node_label::<TC>(l, *f == VersionFreshness::Fresh, *v);
+            let val_ok = batch.iter().any(|(bl, bf, bv, bval)| bl == l && bf == f && bv == v && bval == val);
+            if *nl != want || !val_ok {
+                rep.violation(
+                    format!("{}/multithread/batched_node_label_not_bound_to_its_input", TC::NAME),
+                    json!({"label": show_bytes(l), "fresh": *f == VersionFreshness::Fresh, "version": v, "got": format!("{nl}"), "want": format!("{want}")}),
+                );
+                break;
+            }
+        }
+    }
+    rep.count(&format!("{}:multithread_distinct_completion_orders_observed", TC::NAME), orders.len() as u64);
+}
+
 pub fn run(args: &Args) -> i32 {
     let rep = Report::new("C18", &args.tier, "exploration");
     let quick = args.quick();
@@ -311,8 +350,10 @@ pub fn run(args: &Args) -> i32 {
         s.spawn(move || crate::gate::plain_runtime().block_on(directory_level::<W>(rep, quick)));
         s.spawn(move || crate::gate::plain_runtime().block_on(directory_level::<E>(rep, quick)));
     });
+    batched_on_multithread::<W>(&rep, quick);
+    batched_on_multithread::<E>(&rep, quick);
     rep.finish(
-        "3 keys x 6 labels (empty, a, b, ab, a\\0, 300 bytes) x 2 freshness values x 8 versions (1,2,3,255,256,2^32-1,2^32,2^64-1) x 2 configurations: get_node_label = get_node_labels (batched) = get_node_label_from_vrf_proof(get_label_proof), twice (determinism); the proof verifies under the public key and yields that label. Deviation 1 at verification: every other key / label / freshness / version of the alphabet substituted; every single-bit flip of the claimed node label; every single-bit flip and 0x00/0xff replacement of each proof byte (rejected or same label); wrong-size proofs; node labels pairwise distinct, commitments distinct across keys and equal between server and client formulas. Directory level: lookups verify only under the directory's key; altered or exchanged VRF proof bytes in a lookup proof are rejected or give the same result (this goes through the library's own label verification). One evaluation = one tuple or one alteration",
+        "3 keys x 6 labels (empty, a, b, ab, a\\0, 300 bytes) x 2 freshness values x 8 versions (1,2,3,255,256,2^32-1,2^32,2^64-1) x 2 configurations: get_node_label = get_node_labels (batched) = get_node_label_from_vrf_proof(get_label_proof), twice (determinism); the proof verifies under the public key and yields that label. Deviation 1 at verification: every other key / label / freshness / version of the alphabet substituted; every single-bit flip of the claimed node label; every single-bit flip and 0x00/0xff replacement of each proof byte (rejected or same label); wrong-size proofs; node labels pairwise distinct, commitments distinct across keys and equal between server and client formulas. Directory level: lookups verify only under the directory's key; altered or exchanged VRF proof bytes in a lookup proof are rejected or give the same result (this goes through the library's own label verification). Supplementary, SAMPLED (not exhaustive): the batched derivation is also run 20 (thorough 200) times on a multi-thread runtime, because its parallel tasks can only complete out of order there; every returned label must belong to the input it is paired with. One evaluation = one tuple or one alteration",
         &["enumeration covers this alphabet and its deviation-1 neighbourhood only: it says nothing about the cryptographic soundness of the VRF over the full input space", "blake3 collision resistance"],
     )
 }
